@@ -37,6 +37,53 @@ def _global_reads(fn: ast.FunctionDef, g: str) -> List[ast.Name]:
     return [n for n in walk_no_nested(fn) if isinstance(n, ast.Name) and n.id == g and isinstance(n.ctx, ast.Load)]
 
 
+_INTERPRETER_SETTERS = {'sys.setrecursionlimit', 'sys.set_int_max_str_digits', 'sys.setswitchinterval', 'locale.setlocale', 'random.seed',
+                        'os.chdir', 'os.umask', 'os.putenv', 'gc.disable', 'gc.set_threshold'}
+_STAGES = ('parse_macro_tree', 'resolve_macros', 'labels_resolve')
+
+
+def rule_interpreter_state(rep: Report, repo: Repo) -> None:
+    """a setting of the interpreter itself outlives the call that made it: whatever stage of a LATER assemble() runs before that call's
+    own setter runs under the earlier call's value - the second result then depends on the first call's options"""
+    rep.rule('C13.INTERPRETER-STATE', 'every interpreter-wide setting the pipeline writes (sys.setrecursionlimit, ..) is written by assemble() '
+             'itself, from its own arguments and constants only, before the first pipeline stage is called - so no stage ever runs under a '
+             'value an earlier call left behind', 1)
+    from ..pyfacts import calls_in_order
+    setters = []
+    for rel in PIPELINE:
+        for q, fn in _functions(repo, rel):
+            for c in calls(fn):
+                if dotted(c.func) in _INTERPRETER_SETTERS:
+                    setters.append((rel, q, fn, c))
+        for st in repo.mod(rel).body:
+            for c in ast.walk(st) if not isinstance(st, (ast.FunctionDef, ast.AsyncFunctionDef, ast.ClassDef)) else []:
+                if isinstance(c, ast.Call) and dotted(c.func) in _INTERPRETER_SETTERS:
+                    setters.append((rel, '<module>', None, c))
+    kinds = sorted({dotted(c.func) for _, _, _, c in setters})
+    asm = repo.func(ASM, 'assemble')
+    params = set(param_names(asm))
+    order = calls_in_order(asm)
+    first_stage = next((i for i, c in enumerate(order) if dotted(c.func).split('.')[-1] in _STAGES), None)
+    if first_stage is None:
+        raise AnalysisError('C13.INTERPRETER-STATE: assemble() calls none of the pipeline stages ' + str(_STAGES))
+    consts = {n.id for n in ast.walk(repo.mod(ASM)) if isinstance(n, ast.Name) and n.id.isupper()} | {
+        a.asname or a.name for st in repo.mod(ASM).body if isinstance(st, ast.ImportFrom) for a in st.names if (a.asname or a.name).isupper()}
+    for kind in kinds:
+        early = [c for c in order[:first_stage] if dotted(c.func) == kind]
+        ok = bool(early)
+        why = f'assemble() calls {kind} before {dotted(order[first_stage].func)}' if ok else \
+            f'{kind} is called in {sorted({q for _, q, _, c in setters if dotted(c.func) == kind})} but not by assemble() before its first stage ' \
+            f'({dotted(order[first_stage].func)}): that stage runs under the value the previous call left behind'
+        for c in early:
+            free = {n.id for a in c.args for n in ast.walk(a) if isinstance(n, ast.Name)} - params - consts
+            if free or any(isinstance(n, (ast.Call, ast.Attribute)) for a in c.args for n in ast.walk(a)):
+                ok = False
+                why = f'the value handed to {kind} is not a function of assemble()\'s own arguments and constants ({sorted(free)})'
+        rep.check(ok, 'C13.INTERPRETER-STATE', kind, why, repo.site(ASM, asm), expected='set first, from the call\'s own arguments')
+    if not kinds:
+        raise AnalysisError('C13.INTERPRETER-STATE: no interpreter-wide setter found in the pipeline (sys.setrecursionlimit expected)')
+
+
 def rule_globals(rep: Report, repo: Repo) -> None:
     rep.rule('C13.GLOBALS', 'every process-global of the parser is written on the current call\'s path before it is read: the error '
              'flag/text at the top of parse_macro_tree, the per-file text and namespace stack at the top of lex_parse_curr_file '
@@ -423,6 +470,7 @@ def check(rep: Report, repo: Optional[Repo] = None) -> None:
     repo = repo or Repo()
     rep.units = dict(files=PIPELINE, globals=sorted(KNOWN_GLOBALS))
     rule_globals(rep, repo)
+    rule_interpreter_state(rep, repo)
     rule_cache_key(rep, repo)
     rule_cache_alias(rep, repo)
     rule_immut(rep, repo)
